@@ -1,4 +1,5 @@
 // f_parser.cpp — families "reqhead", "resphead", "tolonglong", "bytesprim", "split", "urlprobe"
+#include <QJsonDocument>
 #include <QUrl>
 #include <QUrlQuery>
 #include <qhttpengine/parser.h>
@@ -69,8 +70,15 @@ static Val run_urlprobe(const Val &c)
 
 static Val run_version(const Val &) { return Val::List({Val::Bytes(QHTTPENGINE_VERSION)}); }
 
+// oracle: QJsonDocument rendering  (src) -> (rendered)
+static Val run_jsonprobe(const Val &c)
+{
+    return Val::List({Val::Bytes(QJsonDocument::fromJson(c.at(0).asBytes()).toJson())});
+}
+
 void reg_parser()
 {
+    registerFamily("jsonprobe", run_jsonprobe);
     registerFamily("version", run_version);
     registerFamily("reqhead", run_reqhead);
     registerFamily("resphead", run_resphead);
